@@ -198,6 +198,41 @@ theorem apl_fixpoint (o : Option Name) (pfx rdata : Bytes) (v : Val) (hoct : Oct
   custom_fixpoint (lookup 1 42) o (lookup_wf 1 42) (fun r w hr hw => apl_pre_post o r w hr hw)
     pfx rdata v hoct hN h pfx'
 
+set_option maxRecDepth 1000000 in
+theorem table_keys_unique :
+    ∀ a ∈ table, ∀ b ∈ table, a.cls = b.cls → a.typ = b.typ → a.mnemonic = b.mnemonic := by decide
+
+/-- dispatch (`dns.rdata.get_rdata_class`) is class independent for the modules under `dns/rdtypes/ANY`: for a
+class that has no module of its own for the type, the lookup returns the ANY entry's codec — for every class,
+not only IN.  (The keys of the table determine the entry: `decide` over all pairs.) -/
+theorem dispatch_any_class : ∀ e ∈ table, e.cls = anyClass → ∀ c : Nat,
+    (∀ e' ∈ table, ¬(e'.cls = c ∧ e'.typ = e.typ)) →
+    (lookup c e.typ).cls = anyClass ∧ (lookup c e.typ).typ = e.typ ∧ (lookup c e.typ).mnemonic = e.mnemonic := by
+  intro e he hcls c hno
+  have huniq := table_keys_unique
+  have h1 : table.find? (fun x => x.cls == c && x.typ == e.typ) = none := by
+    rw [List.find?_eq_none]; intro x hx hh
+    simp only [Bool.and_eq_true, beq_iff_eq] at hh
+    exact hno x hx hh
+  have h2 : ∃ x, table.find? (fun x => x.cls == anyClass && x.typ == e.typ) = some x := by
+    cases hf : table.find? (fun x => x.cls == anyClass && x.typ == e.typ) with
+    | some x => exact ⟨x, rfl⟩
+    | none =>
+      rw [List.find?_eq_none] at hf
+      exact absurd (by simp [hcls]) (hf e he)
+  obtain ⟨x, hx⟩ := h2
+  have hxm := List.mem_of_find?_eq_some hx
+  have hxp := List.find?_some hx
+  simp only [Bool.and_eq_true, beq_iff_eq] at hxp
+  unfold lookup
+  rw [h1, hx]
+  exact ⟨hxp.1, hxp.2, huniq x hxm e he (hxp.1.trans hcls.symm) hxp.2⟩
+
+set_option maxRecDepth 1000000 in
+/-- … and a class-specific module wins over the ANY one, and only in its own class -/
+theorem dispatch_own_class : ∀ e ∈ table, (lookup e.cls e.typ).mnemonic = e.mnemonic ∧ (lookup e.cls e.typ).cls = e.cls := by
+  decide
+
 /-- *"(and unknown types in RFC 3597 generic form)"*: a (class, type) without a table entry is handled by the
 generic entry, whose codec is the identity on the octets. -/
 theorem generic_roundtrip (c t : Nat) (h : ∀ e ∈ table, ¬(e.typ = t ∧ (e.cls = c ∨ e.cls = anyClass)))
